@@ -114,19 +114,26 @@ def tsc_parallel(
 
     if not npartition:
         if nthread > 1:
-            # Must be less than or equal to n1d//3, so that every stripe is at
-            # least 3 cells wide and the TSC clouds of stripes two apart never
-            # touch the same cell. Must be even, and need not exceed 2*nthread.
-            npartition = min(n1d // 3, 2 * nthread)
+            # Must be less than or equal to n1d//4, so that every stripe is at
+            # least 4 cells wide: 3 cells for the TSC cloud plus one spare cell,
+            # because the stripe of a particle is floor(x*npartition/box) while
+            # its central cell is round((x+offset)*ngrid/box) evaluated in the
+            # dtype of pos.  With 3-cell stripes a particle one ulp below a
+            # stripe edge can round up to the next cell (edge on a half-integer
+            # grid coordinate, e.g. offset = half a cell) while a particle on the
+            # edge two stripes further rounds down, and both then store to the
+            # same grid row in the same pass.  Must be even, and need not exceed
+            # 2*nthread.
+            npartition = min(n1d // 4, 2 * nthread)
             npartition = 2 * (npartition // 2)  # must be even
             npartition = max(npartition, 1)  # grid too small to parallelize
         else:
             npartition = 1
 
-    if npartition > 1 and npartition > n1d // 3 and nthread > 1:
+    if npartition > 1 and npartition > n1d // 4 and nthread > 1:
         raise ValueError(
             f'npartition {npartition} must be less than or equal to'
-            f' ngrid//3 = {n1d // 3}'
+            f' ngrid//4 = {n1d // 4}'
         )
     if npartition > 1 and npartition % 2 != 0 and nthread > 1:
         raise ValueError(f'npartition {npartition} not divisible by 2')
@@ -239,7 +246,7 @@ def _tsc_parallel(ppart, starts, dens, box, weights, offset):
             )
 
 
-@numba.njit(parallel=True, fastmath=True)
+@numba.njit(parallel=True)
 def partition_parallel(
     pos,
     npartition,
@@ -308,14 +315,21 @@ def partition_parallel(
     assert pos.shape[1] == 3
 
     # First pass: compute key and per-thread histogram
-    dtype = pos.dtype.type
-    inv_pwidth = dtype(npartition / boxsize)
+    # The stripe of a particle is floor(x*npartition/boxsize), evaluated in
+    # float64 in exactly this order.  Multiplying by a pre-rounded
+    # npartition/boxsize (in the dtype of pos) misfiles particles that lie on
+    # a stripe boundary, e.g. x=1500, boxsize=2000, npartition=36.  (This is
+    # also why the function is not compiled with fastmath: that would turn
+    # the division back into a multiplication by the rounded 1/boxsize.)
     keys = np.empty(len(pos), dtype=np.int32)
     counts = np.zeros((nthread, npartition), dtype=np.int32)
     tstart = np.linspace(0, len(pos), nthread + 1).astype(np.int64)
     for t in numba.prange(nthread):
         for i in range(tstart[t], tstart[t + 1]):
-            keys[i] = min(np.int32(pos[i, coord] * inv_pwidth), npartition - 1)
+            keys[i] = min(
+                np.int32(np.float64(pos[i, coord]) * npartition / boxsize),
+                npartition - 1,
+            )
             counts[t, keys[i]] += 1
 
     # Compute start indices for parallel scatter
@@ -381,7 +395,7 @@ def _tsc_scatter(positions, density, boxsize, weights=None, offset=0.0):
     Supports 3D and 2D.
     """
     ftype = positions.dtype.type
-    itype = np.int16
+    itype = np.int32
     # a one-cell-thick third axis is the 2D case
     threeD = density.ndim == 3 and density.shape[2] > 1
     gx = itype(density.shape[0])
